@@ -1,77 +1,177 @@
-"""Generated/CppFramerConsts.v from src/point_one/fusion_engine/parsers/fusion_engine_framer.cc and
-messages/defs.h: SetBuffer clamp / alignment constants, extra bytes allocated for managed buffers,
-and the MessageHeader field offsets the model reads through reinterpret_cast (computed from the member
-declaration order and widths in defs.h; the C++ harness static_asserts the same numbers with offsetof).
-Fail closed."""
-import os, re, sys
+"""Generated/CppFramerConsts.v: constants of the C++ FusionEngine framer, obtained by EVALUATING the working tree
+rather than matching its text (so renamed members/locals, a restructured constructor or a constant spelled
+differently do not break the tie):
+  * MessageHeader size and the offsets of reserved / crc / protocol_version / payload_size_bytes: a probe is
+    compiled against the headers and prints sizeof / offsetof (harness/cpp/c07_probe.cc);
+  * where CalculateCRC(buffer) starts: the k for which CalculateCRC(msg) == CalculateCRC(msg + k, len - k);
+  * the usable capacity as a function of (address mod 8, capacity): the largest message the real framer accepts
+    as a candidate — a CRC-valid message of 24..48 bytes is dispatched or not; for larger sizes a header claiming
+    payload P (wrong CRC) followed by a valid empty message: if the candidate fits, the framer waits for P bytes
+    and the second message is swallowed, otherwise it is dispatched; P is found by binary search.  From that table:
+    the alignment (period and shift), the minimum capacity, the 2^31-1 clamp, and the extra bytes a managed
+    framer has.  The table must be of the modelled shape  usable = min(capacity, clamp) - ((-address) mod align)
+    when capacity and the result are >= the header size, else nothing is framed  — otherwise fail closed.
+The compiled probe and its results are cached under build/gen_c07 keyed by a hash of the sources."""
+import hashlib, json, os, random, struct, sys, zlib
 sys.path.insert(0, os.path.join(os.path.dirname(__file__), '..', 'lib'))
 import vf
 
-SRC = 'src/point_one/fusion_engine/parsers/fusion_engine_framer.cc'
-DEFS = 'src/point_one/fusion_engine/messages/defs.h'
-CRC = 'src/point_one/fusion_engine/messages/crc.cc'
-WIDTH = {'uint8_t': 1, 'uint16_t': 2, 'uint32_t': 4, 'MessageType': 2}
+FR = 'src/point_one/fusion_engine'
+SOURCES = [FR + '/parsers/fusion_engine_framer.cc', FR + '/parsers/fusion_engine_framer.h', FR + '/messages/crc.cc', FR + '/messages/crc.h',
+           FR + '/messages/defs.h', FR + '/common/logging.cc', FR + '/common/logging.h', FR + '/common/portability.h']
+PROBE = os.path.join(vf.VERIF, 'harness/cpp/c07_probe.cc')
 
 
-def cint(s):
-    return int(s.strip().rstrip('uUlL'), 0)
+def _hash():
+    h = hashlib.sha1()
+    for p in [os.path.join(vf.REPO, s) for s in SOURCES] + [PROBE, __file__]:
+        h.update(open(p, 'rb').read())
+    return h.hexdigest()[:16]
 
 
-def need(m, what, src=SRC):
-    if not m:
-        raise RuntimeError('gen_c07: %s not recognised in %s' % (what, src))
-    return m
+class Probe:
+    def __init__(self, exe):
+        import subprocess
+        self.p = subprocess.Popen([exe], stdin=subprocess.PIPE, stdout=subprocess.PIPE, text=True, bufsize=1)
+        self.first = self.p.stdout.readline().split()
+
+    def ask(self, line):
+        self.p.stdin.write(line + '\n'); self.p.stdin.flush()
+        out = self.p.stdout.readline()
+        if not out:
+            raise RuntimeError('gen_c07: probe died on %r' % line[:80])
+        return out.split()
+
+    def close(self):
+        try:
+            self.p.stdin.close(); self.p.wait(timeout=10)
+        except Exception:
+            self.p.kill()
 
 
-def strip(txt):
-    return re.sub(r'//[^\n]*', '', re.sub(r'/\*.*?\*/', '', txt, flags=re.S))
+def derive(exe):
+    pr = Probe(exe)
+    try:
+        if len(pr.first) != 6 or pr.first[0] != 'C':
+            raise RuntimeError('gen_c07: probe header line %r' % pr.first)
+        H, o_res, o_crc, o_start_decl, o_psize = [int(x) for x in pr.first[1:]]
+        if (H, o_res, o_crc, o_psize) != (24, 2, 4, 16):
+            raise RuntimeError('gen_c07: MessageHeader layout (size %d, reserved %d, crc %d, payload_size %d) is not the one Base/FEFormat.v transcribes' % (H, o_res, o_crc, o_psize))
+        rng = random.Random(7)
+
+        def msg(payload, psize=None, crc=None):
+            psize = len(payload) if psize is None else psize
+            tail = struct.pack('<BBHIII', 2, 0, 60000, rng.getrandbits(32), psize, 0) + bytes(payload)
+            c = zlib.crc32(tail) & 0xFFFFFFFF if crc is None else crc
+            return b'.1' + struct.pack('<HI', 0, c) + tail
+        # where CalculateCRC(buffer) starts
+        ks = None
+        for _ in range(4):
+            m = msg(bytes(rng.getrandbits(8) for _ in range(rng.randint(1, 40))))
+            good = {k for k in range(0, H + 1) if (lambda r: r[0] == r[1])(pr.ask('K %d %s' % (k, m.hex())))}
+            ks = good if ks is None else ks & good
+        if not ks or len(ks) != 1:
+            raise RuntimeError('gen_c07: CalculateCRC(buffer) does not cover [k, end) for a unique k (%r)' % (ks,))
+        crc_start = ks.pop()
+        empty = msg(b'')
+
+        def ncb(kind, a, cap, stream):
+            r = pr.ask(('U %d %d %s' % (a, cap, stream.hex())) if kind == 'U' else ('M %d %s' % (cap, stream.hex())))
+            return int(r[0])
+
+        def usable(kind, a, cap):
+            """largest message size the framer takes as a candidate; 0 if it frames nothing"""
+            best = 0
+            for p in range(0, 25):
+                if ncb(kind, a, cap, msg(bytes(p))) == 1:
+                    best = H + p
+                elif best:
+                    return best
+            if best < H + 24:
+                return best
+            # P > 24: the 24 bytes that follow the header never complete the candidate
+            fits = lambda P: ncb(kind, a, cap, msg(b'', psize=P, crc=1) + empty) == 0
+            lo, hi = 25, (1 << 32) - 1
+            if not fits(lo):
+                return best
+            while lo < hi:
+                mid = (lo + hi + 1) // 2
+                if fits(mid): lo = mid
+                else: hi = mid - 1
+            return H + lo
+        # alignment: shift(a) = 1000 - usable(a, 1000)
+        shifts = [1000 - usable('U', a, 1000) for a in range(8)]
+        align = next((P for P in (1, 2, 4, 8) if all(shifts[a] == (-a) % P for a in range(8))), None)
+        if align is None:
+            raise RuntimeError('gen_c07: usable capacity vs address is not "capacity - ((-address) mod 2^k)": shifts %r' % shifts)
+        # clamp
+        big = [usable('U', 0, c) for c in ((1 << 31) + 5, (1 << 33), (1 << 32) + 100)]
+        if len(set(big)) != 1:
+            raise RuntimeError('gen_c07: capacities >= 2^31 are not clamped to one value: %r' % big)
+        clamp = big[0]
+        for c in (clamp - 1, clamp, clamp + 1):
+            if usable('U', 0, c) != min(c, clamp):
+                raise RuntimeError('gen_c07: usable(0, %d) is not min(capacity, %d)' % (c, clamp))
+        # shape on small capacities, all alignments
+        for a in range(8):
+            s = (-a) % align
+            for c in list(range(0, 36)) + [47, 48, 49, 64, 100]:
+                want = c - s if (c >= H and c - s >= H) else 0
+                got = usable('U', a, c)
+                if got != want:
+                    raise RuntimeError('gen_c07: usable(address %d, capacity %d) = %d, the modelled shape gives %d' % (a, c, got, want))
+        extras = {usable('M', 0, n) - n for n in (24, 40, 64, 100)}
+        if len(extras) != 1 or min(extras) < 0:
+            raise RuntimeError('gen_c07: managed framers do not have capacity + constant usable bytes: %r' % extras)
+        return {'FR_CLAMP': clamp, 'FR_ALIGN_MASK': align - 1, 'FR_MANAGED_EXTRA': extras.pop(), 'FR_HEADER_SIZE': H, 'FR_OFF_RESERVED': o_res,
+                'FR_OFF_CRC': o_crc, 'FR_OFF_CRC_START': crc_start, 'FR_OFF_PSIZE': o_psize}
+    finally:
+        pr.close()
 
 
-def header_layout():
-    code = strip(vf.repo_file(DEFS))
-    m = need(re.search(r'struct\s+P1_ALIGNAS\(4\)\s+MessageHeader\s*\{(.*?)\n\};', code, re.S), 'struct MessageHeader', DEFS)
-    off, out = 0, {}
-    for line in m.group(1).split(';'):
-        line = line.strip()
-        if not line or line.startswith('static') or '(' in line:
-            continue
-        mm = re.match(r'(uint8_t|uint16_t|uint32_t|MessageType)\s+(\w+)\s*(?:\[\s*(\d+)\s*\])?\s*(?:=.*)?$', line, re.S)
-        if not mm:
-            raise RuntimeError('gen_c07: MessageHeader member not understood: %r' % line)
-        w = WIDTH[mm.group(1)] * (int(mm.group(3)) if mm.group(3) else 1)
-        out[mm.group(2)] = (off, w)
-        off += w
-    if 'MessageType' in [k for k in WIDTH] and not re.search(r'enum\s+class\s+MessageType\s*:\s*uint16_t', code):
-        raise RuntimeError('gen_c07: MessageType underlying type is not uint16_t')
-    out['__size__'] = (off, 0)
-    return out
+def constants():
+    d = os.path.join(vf.BUILD, 'gen_c07')
+    os.makedirs(d, exist_ok=True)
+    key = _hash()
+    cache = os.path.join(d, 'consts_%s.json' % key)
+    if os.path.exists(cache):
+        return json.load(open(cache))
+    exe = os.path.join(d, 'probe_%s_%d' % (key, os.getpid()))
+    srcs = ' '.join(os.path.join(vf.REPO, s) for s in SOURCES if s.endswith('.cc'))
+    rc, so, se = vf.sh('clang++-14 -std=c++14 -O1 -I%s/src %s %s -o %s' % (vf.REPO, PROBE, srcs, exe), timeout=300)
+    if rc != 0:
+        raise RuntimeError('gen_c07: probe does not compile against the working tree: ' + se[-1500:])
+    try:
+        vals = derive(exe)
+    finally:
+        try: os.remove(exe)
+        except OSError: pass
+    tmp = cache + '.%d' % os.getpid()
+    json.dump(vals, open(tmp, 'w')); os.replace(tmp, cache)
+    return vals
+
+
+def write(vals):
+    t = vf.gen_header([s + ' (compiled, probed)' for s in SOURCES if s.endswith(('framer.cc', 'crc.cc', 'defs.h'))])
+    t += 'From Coq Require Import NArith.\nOpen Scope N_scope.\n'
+    for k in ('FR_CLAMP', 'FR_ALIGN_MASK', 'FR_MANAGED_EXTRA', 'FR_HEADER_SIZE', 'FR_OFF_RESERVED', 'FR_OFF_CRC', 'FR_OFF_CRC_START', 'FR_OFF_PSIZE'):
+        t += 'Definition %s : N := %d.\n' % (k, vals[k])
+    vf.write_if_changed(os.path.join(vf.THEORIES, 'Generated', 'CppFramerConsts.v'), t)
+
+
+DEFAULTS = {'FR_CLAMP': 2147483647, 'FR_ALIGN_MASK': 3, 'FR_MANAGED_EXTRA': 3, 'FR_HEADER_SIZE': 24, 'FR_OFF_RESERVED': 2, 'FR_OFF_CRC': 4,
+            'FR_OFF_CRC_START': 8, 'FR_OFF_PSIZE': 16}
+
+
+def ensure_present():
+    """used when generate() failed: keep the last generated file, or write the documented values"""
+    if not os.path.exists(os.path.join(vf.THEORIES, 'Generated', 'CppFramerConsts.v')):
+        write(DEFAULTS)
 
 
 def generate():
-    flat = re.sub(r'\s+', '', strip(vf.repo_file(SRC)))
-    clamp = cint(need(re.search(r'capacity_bytes>(0[xX][0-9a-fA-F]+)\)', flat), 'SetBuffer clamp').group(1))
-    al = need(re.search(r'\(reinterpret_cast<size_t>\(buffer_unaligned\)\+(\d+)\)&~\(static_cast<size_t>\((\d+)\)\)', flat), 'SetBuffer alignment')
-    if al.group(1) != al.group(2):
-        raise RuntimeError('gen_c07: alignment add/mask differ')
-    extra = cint(need(re.search(r'SetBuffer\(nullptr,capacity_bytes\+(\d+)\);', flat), 'managed extra bytes').group(1))
-    need(re.search(r'capacity_bytes<sizeof\(MessageHeader\)', flat), 'SetBuffer minimum')
-    lay = header_layout()
-    want = ['sync', 'reserved', 'crc', 'protocol_version', 'message_version', 'message_type', 'sequence_number',
-            'payload_size_bytes', 'source_identifier']
-    if [k for k in lay if k != '__size__'] != want:
-        raise RuntimeError('gen_c07: MessageHeader members %r' % list(lay))
-    crc = re.sub(r'\s+', '', strip(vf.repo_file(CRC)))
-    need(re.search(r'offset=offsetof\(MessageHeader,protocol_version\);', crc), 'CalculateCRC start offset', CRC)
-    need(re.search(r'size_bytes=\(sizeof\(MessageHeader\)-offset\)\+header\.payload_size_bytes;', crc), 'CalculateCRC length', CRC)
-    vals = {'FR_CLAMP': clamp, 'FR_ALIGN_MASK': cint(al.group(2)), 'FR_MANAGED_EXTRA': extra,
-            'FR_HEADER_SIZE': lay['__size__'][0], 'FR_OFF_RESERVED': lay['reserved'][0], 'FR_OFF_CRC': lay['crc'][0],
-            'FR_OFF_CRC_START': lay['protocol_version'][0], 'FR_OFF_PSIZE': lay['payload_size_bytes'][0]}
-    if (lay['reserved'][1], lay['crc'][1], lay['payload_size_bytes'][1], lay['sync'][1]) != (2, 4, 4, 2):
-        raise RuntimeError('gen_c07: field widths changed: %r' % lay)
-    t = vf.gen_header([SRC, DEFS, CRC]) + 'From Coq Require Import NArith.\nOpen Scope N_scope.\n'
-    for k, v in vals.items():
-        t += 'Definition %s : N := %d.\n' % (k, v)
-    vf.write_if_changed(os.path.join(vf.THEORIES, 'Generated', 'CppFramerConsts.v'), t)
+    vals = constants()
+    write(vals)
     return vals
 
 
